@@ -18,6 +18,8 @@ package redisemu
 //@ ghost gParsedOK bool
 // C04: the option flags the hash table worker was last entered with
 //@ ghost gHashOptions bitflags
+// C02: MSETNX found one of its keys present
+//@ ghost gSawExisting bool
 // C05: ghost sets used to state the set algebra: the accumulated operand set (union of the
 // operands processed so far), its value before the current operand, the result's members
 // when the current operand was reached, and the empty set
